@@ -135,8 +135,9 @@ def run(ctx):
                 ('replace_this_with_var', lambda: R.replace_this_with_var(obj, 'Z'), [S('thisvar'), w, 'Z']),
                 ('replace_var_with_this', lambda: R.replace_var_with_this(obj, 'A'), [S('varthis'), w, 'A'])]
         if boolish:
-            todo += [('split_and', lambda: R.split_and(obj), [S('splitand'), w]),
-                     ('refactor_reference', lambda: R.refactor_reference(obj, 'A'), [S('refactor'), w, 'A'])]
+            todo += [('split_and', lambda: R.split_and(obj), [S('splitand'), w])]
+        # refactor_reference has an explicit case for non-boolean expressions (returns (True, expr)): it is applied to every input
+        todo += [('refactor_reference', lambda: R.refactor_reference(obj, 'A'), [S('refactor'), w, 'A'])]
         for name, f, req in todo:
             ops.append((inp, name, attempt(f), dumps(req), obj))
     for inp, p in props:
